@@ -1,0 +1,5 @@
+//go:build !verif
+
+package vm
+
+func verifAsync(point string, promise *Promise, task *Promise, thread *Thread) {}
